@@ -203,6 +203,17 @@ type c44Cfg struct {
 	batched bool
 	ipvs    bool
 	pol     bool // endpoints carry a tier with a (non-inlined) policy group
+	base    string // name of a prefix applied in New (not counted in the depth bound), see c44Bases
+}
+
+// Base prefixes: shadowing already in place, so that the depth bound is spent on what happens next.
+var c44Bases = map[string][]c44Ev{
+	"two-on-cali1": {
+		{kind: "upd", id: 0, ep: c44Ep{"cali1", true}}, {kind: "upd", id: 1, ep: c44Ep{"cali1", true}}, {kind: "flush"}},
+	"three-on-cali1": {
+		{kind: "upd", id: 0, ep: c44Ep{"cali1", true}}, {kind: "upd", id: 1, ep: c44Ep{"cali1", false}}, {kind: "upd", id: 2, ep: c44Ep{"cali1", true}}, {kind: "flush"}},
+	"split": {
+		{kind: "upd", id: 1, ep: c44Ep{"cali1", true}}, {kind: "upd", id: 2, ep: c44Ep{"cali1", true}}, {kind: "upd", id: 0, ep: c44Ep{"cali2", true}}, {kind: "flush"}},
 }
 
 type c44State struct {
@@ -277,6 +288,19 @@ func c44New(cfg c44Cfg) *c44State {
 	st.baseline = map[string]bool{}
 	for n := range st.filter.currentChains {
 		st.baseline[n] = true
+	}
+	if cfg.base != "" {
+		evs, ok := c44Bases[cfg.base]
+		if !ok {
+			panic("unknown base " + cfg.base)
+		}
+		for _, e := range evs {
+			if e.kind == "flush" && !cfg.batched {
+				continue // atomic system flushes after every event anyway
+			}
+			c44Apply(st, e)
+		}
+		st.batch = nil
 	}
 	return st
 }
@@ -513,7 +537,7 @@ type c44Ref struct {
 // endpoint), in ascending and in descending id order. History-independence of the preferred endpoint means
 // every explored history must agree with it.
 func (st *c44State) refWinners() *c44Ref {
-	key := fmt.Sprintf("%v|%v|%s", st.cfg.ipvs, st.cfg.pol, st.envString())
+	key := fmt.Sprintf("%d|%v|%v|%s", st.cfg.nIDs, st.cfg.ipvs, st.cfg.pol, st.envString())
 	if v, ok := c44RefWinners.Load(key); ok {
 		return v.(*c44Ref)
 	}
@@ -816,6 +840,11 @@ func TestVerif_C44(t *testing.T) {
 			if strings.Contains(d.Spec, "4ids") {
 				cfg.nIDs = 4
 			}
+			for bn := range c44Bases {
+				if strings.Contains(d.Spec, "base-"+bn) {
+					cfg.base = bn
+				}
+			}
 			fails, err := hbfs.Replay(c44Spec(cfg, d.Spec, 99, false), d.History)
 			if err != nil {
 				c.ToolError(err.Error())
@@ -837,6 +866,10 @@ func TestVerif_C44(t *testing.T) {
 		// 3. batched system with enumerated map order
 		st := hbfs.Explore(c, c44Spec(c44Cfg{nIDs: 3, batched: true}, "wep-batched-3ids-graph", c.Pick(5, 7), true))
 		_ = st
+		// 3b. batched system started with shadowing already in place (depth spent on the batches that follow)
+		for _, bn := range []string{"two-on-cali1", "three-on-cali1", "split"} {
+			hbfs.Explore(c, c44Spec(c44Cfg{nIDs: 3, batched: true, base: bn}, "wep-batched-base-"+bn+"-graph", c.Pick(3, 5), true))
+		}
 		// 4. IPVS mark chains on (endpoint-mark dispatch is part of the dispatch state)
 		hbfs.Explore(c, c44Spec(c44Cfg{nIDs: 3, ipvs: true}, "wep-atomic-ipvs-3ids-graph", c.Pick(6, 20), true))
 		// 5. endpoints with a reference-counted policy-group chain
